@@ -156,3 +156,26 @@ def mk_flow_tokens(name):
 def tasks(tier):
     n = 40 if tier == 'quick' else 1000
     return [('borrow_fee', t_borrow_fee), ('cache_frame', t_cache_frame)] + [(f'tokens_{x}', mk_flow_tokens(x)) for x in ('deposit', 'withdraw', 'repay')] + [(f'{op}', wrapper_task(op, 'C01', n)) for op in OPS if goals_for(op, OpPre, ('C01',))]
+
+
+
+# ---------------------------------------------------------------- C01.d: the other instructions that move tokens out of / into the liquidity vault (shared with C19.a, C07.b, C05.c)
+def t_collect_fees(world):
+    import specs.C19 as C19
+    return C19.t_collect(world, 'C01.d.collect_bank_fees')
+
+
+def t_bankruptcy(world):
+    import specs.C07 as C07
+    return C07.t_bankruptcy_handler(world, 'C01.d.handle_bankruptcy')
+
+
+def t_liquidation_fee(world):
+    import specs.C05 as C05
+    return C05.mk_fee(6, 9, 'C01.d.liquidate.')(world)
+
+
+_t_c01d = tasks
+def tasks(tier):
+    # the liquidation fee arithmetic (8 min of path enumeration) is C05.c in the quick tier; C01 re-decides it in the thorough tier only
+    return _t_c01d(tier) + [('collect_fees', t_collect_fees), ('bankruptcy', t_bankruptcy)] + ([('liquidation_fee', t_liquidation_fee)] if tier == 'thorough' else [])
